@@ -672,6 +672,10 @@ def _run(chk, wd, proved):
             for s in accepted_sigs:
                 known(s, label or stream)
             rej = [s for s in sigs if s in MODEL_REJECTS]
+            if rej and atoms is not None and not any(a_[0] == 'S' and "'here': " in a_[1] for a_ in atoms):
+                # the nameless conversion sits in a value that was never expanded (e.g. the command of a
+                # section with numprocs=0): nothing was formatted, model and reader are compared as usual
+                rej = []
             if rej:
                 # the model answers with its documented error; the acceptance is the finding
                 atoms = [('T', 'err'), ('T', MODEL_REJECTS[rej[0]])]
